@@ -286,9 +286,9 @@ func c11(c *evid.Ctx) {
 }
 
 
-// c11bursts: many hosts announce for one infohash in a single burst (the server applies each
-// announce from its own goroutine), interleaved with get_peers; afterwards every announced endpoint
-// must be served.
+// c11bursts: many hosts announce for a few infohashes in a single burst (the server applies each
+// announce from its own goroutine, so the store sees concurrent AddPeer calls for different
+// swarms), interleaved with get_peers; afterwards every swarm must hold exactly its own endpoints.
 func c11bursts(c *evid.Ctx) {
 	r := c.R.Fork("bursts")
 	rounds := c.Scale(40, 1500)
@@ -299,13 +299,18 @@ func c11bursts(c *evid.Ctx) {
 			c.Inconclusive(err.Error())
 			return
 		}
-		ih := r.ID()
+		nih := r.Range(1, 4)
+		ihs := make([][20]byte, nih)
+		for i := range ihs {
+			ihs[i] = r.ID()
+		}
 		B := r.Range(2, 64)
 		var alloc gen.AddrAlloc
 		type host struct {
 			src  *net.UDPAddr
 			tok  string
 			port int
+			ih   int
 		}
 		hosts := make([]host, B)
 		var msgs [][]byte
@@ -316,7 +321,11 @@ func c11bursts(c *evid.Ctx) {
 			} else {
 				hosts[i].src = alloc.V4()
 			}
-			msgs = append(msgs, srv.Query("get_peers", "t", benc.Dict{"id": r.ID(), "info_hash": ih}))
+			hosts[i].ih = r.Intn(nih)
+			if i < nih {
+				hosts[i].ih = i // every swarm gets at least one member
+			}
+			msgs = append(msgs, srv.Query("get_peers", "t", benc.Dict{"id": r.ID(), "info_hash": ihs[hosts[i].ih]}))
 			from = append(from, hosts[i].src)
 		}
 		by, _, err := n.Exchange(nil, msgs, from)
@@ -325,50 +334,74 @@ func c11bursts(c *evid.Ctx) {
 			n.Close()
 			return
 		}
-		msgs, from = nil, nil
 		for i := range hosts {
 			if rs := by[hosts[i].src.String()]; len(rs) == 1 {
 				hosts[i].tok, _ = benc.Str(rs[0].R(), "token")
 			}
 			hosts[i].port = r.Port()
-			msgs = append(msgs, srv.Query("announce_peer", "a", benc.Dict{"id": r.ID(), "info_hash": ih, "port": int64(hosts[i].port), "token": hosts[i].tok}))
+		}
+		announce := func(h host) []byte {
+			return srv.Query("announce_peer", "a", benc.Dict{"id": r.ID(), "info_hash": ihs[h.ih], "port": int64(h.port), "token": h.tok})
+		}
+		// the swarms exist before the burst: one member each, announced one at a time
+		for i := 0; i < nih && i < B; i++ {
+			if _, err := n.Ask(announce(hosts[i]), hosts[i].src); err != nil {
+				c.Inconclusive(err.Error())
+				n.Close()
+				return
+			}
+		}
+		msgs, from = nil, nil
+		for i := nih; i < B; i++ {
+			msgs = append(msgs, announce(hosts[i]))
 			from = append(from, hosts[i].src)
 			if i%5 == 0 {
-				msgs = append(msgs, srv.Query("get_peers", "g", benc.Dict{"id": r.ID(), "info_hash": ih, "want": benc.List{"n4", "n6"}}))
+				msgs = append(msgs, srv.Query("get_peers", "g", benc.Dict{"id": r.ID(), "info_hash": ihs[r.Intn(nih)], "want": benc.List{"n4", "n6"}}))
 				from = append(from, alloc.V4())
 			}
 		}
-		if _, _, err := n.Exchange(nil, msgs, from); err != nil {
-			c.Inconclusive(err.Error())
-			n.Close()
-			return
+		if len(msgs) > 0 {
+			if _, _, err := n.Exchange(nil, msgs, from); err != nil {
+				c.Inconclusive(err.Error())
+				n.Close()
+				return
+			}
 		}
-		rs, err := n.Ask(srv.Query("get_peers", "f", benc.Dict{"id": r.ID(), "info_hash": ih, "want": benc.List{"n4", "n6"}}), alloc.V4())
 		c.Eval(1)
 		c.Count("announce bursts checked", 1)
-		c.Distinct(gen.Hash64("burst", B, round))
-		if err != nil || len(rs) != 1 {
-			c.Violation("get_peers-not-answered", fmt.Sprintf("after a burst of %d announces: %d replies", B, len(rs)), nil)
-			n.Close()
-			continue
-		}
-		vals, _ := benc.Lst(rs[0].R(), "values")
-		got := map[string]bool{}
-		for _, v := range vals {
-			if s, ok := v.(string); ok && len(s) >= 6 {
-				got[(&net.UDPAddr{IP: net.IP(s[:len(s)-2]), Port: int(s[len(s)-2])<<8 | int(s[len(s)-1])}).String()] = true
-			}
-		}
-		c.Count("get_peers replies with values", 1)
-		for _, h := range hosts {
-			want := (&net.UDPAddr{IP: h.src.IP, Port: h.port}).String()
-			if !got[want] {
-				c.Violation("current-endpoint-missing-from-get_peers:burst", fmt.Sprintf("%d hosts announced in one burst; %s is missing from the %d values returned afterwards", B, want, len(vals)), nil)
+		c.Distinct(gen.Hash64("burst", B, nih, round))
+		for hi, ih := range ihs {
+			rs, err := n.Ask(srv.Query("get_peers", "f", benc.Dict{"id": r.ID(), "info_hash": ih, "want": benc.List{"n4", "n6"}}), alloc.V4())
+			if err != nil || len(rs) != 1 {
+				c.Violation("get_peers-not-answered", fmt.Sprintf("after a burst of %d announces: %d replies", B, len(rs)), nil)
 				break
 			}
-		}
-		if len(got) > B {
-			c.Violation("returned-endpoint-never-announced:burst", fmt.Sprintf("%d distinct endpoints returned, %d announced", len(got), B), nil)
+			vals, _ := benc.Lst(rs[0].R(), "values")
+			got := map[string]bool{}
+			for _, v := range vals {
+				if s, ok := v.(string); ok && len(s) >= 6 {
+					got[(&net.UDPAddr{IP: net.IP(s[:len(s)-2]), Port: int(s[len(s)-2])<<8 | int(s[len(s)-1])}).String()] = true
+				}
+			}
+			c.Count("get_peers replies with values", 1)
+			want := map[string]bool{}
+			for _, h := range hosts {
+				if h.ih == hi {
+					want[(&net.UDPAddr{IP: h.src.IP, Port: h.port}).String()] = true
+				}
+			}
+			for w := range want {
+				if !got[w] {
+					c.Violation("current-endpoint-missing-from-get_peers:burst", fmt.Sprintf("%d hosts announced for %d infohashes in one burst; %s is missing from its swarm (%d values returned, %d expected)", B, nih, w, len(vals), len(want)), nil)
+					break
+				}
+			}
+			for g := range got {
+				if !want[g] {
+					c.Violation("returned-endpoint-never-announced:burst", fmt.Sprintf("%d hosts, %d infohashes: %s is served for an infohash it never announced", B, nih, g), nil)
+					break
+				}
+			}
 		}
 		n.Close()
 	}
